@@ -64,6 +64,11 @@ impl ScriptedFile {
 impl AsyncRead for ScriptedFile {
     fn poll_read(mut self: Pin<&mut Self>, cx: &mut Context<'_>, buf: &mut ReadBuf<'_>) -> Poll<std::io::Result<()>> {
         let len = self.data.len() as u64;
+        if self.pending_armed {
+            // AsyncSeek contract: poll_complete must have returned Ready before the next operation
+            // (tokio::fs::File answers exactly like this)
+            return Poll::Ready(Err(std::io::Error::new(std::io::ErrorKind::Other, "other file operation is pending, call poll_complete before start_seek/poll_read")));
+        }
         if self.pos < self.base {
             // inside the virtual zero prefix: deliver zeros up to its end (no decision point)
             let n = (buf.remaining() as u64).min(self.base - self.pos).min(4096) as usize;
